@@ -508,7 +508,7 @@ def cuts_from_mask(mask: int, length: int):
 
 
 class Outcome:
-    __slots__ = ("streams", "dgrams", "closed", "raised", "settings", "resumes", "blocked_sids", "events", "fin_alone_sids", "closed_by")
+    __slots__ = ("streams", "dgrams", "closed", "raised", "settings", "resumes", "blocked_sids", "events", "fin_alone_sids", "closed_by", "probe")
 
     def __init__(self):
         self.streams = {}  # sid -> {"items": [[kind, id, payload]], "ended": int, "after_end": bool}
@@ -521,6 +521,7 @@ class Outcome:
         self.events = 0
         self.fin_alone_sids = set()
         self.closed_by = None  # (key whose delivery triggered close(), streams blocked just before)
+        self.probe = None  # diagnostic re-run only: last frame-handler call of the step that closed
 
     def norm(self):
         return {
@@ -611,7 +612,7 @@ def blocked_now(h3):
     return {sid for sid, s in h3._stream.items() if s.blocked}
 
 
-def deliver(env: Env, case: Case, schedule, on_exc=None) -> Outcome:
+def deliver(env: Env, case: Case, schedule, on_exc=None, probe=False, partial=False) -> Outcome:
     """Feed a fresh receiver the case's bytes according to `schedule`.  Exceptions escaping
     handle_event end the delivery and are recorded in outcome.raised (C16 owns them; here they are
     only an outcome class)."""
@@ -623,6 +624,19 @@ def deliver(env: Env, case: Case, schedule, on_exc=None) -> Outcome:
     SDR = env.StreamDataReceived
     DFR = env.DatagramFrameReceived
     blocked = set()
+    last = {}
+    delivered = {}
+    if probe:
+        # diagnostic only (used after a close difference was found, to name the mechanism): remember the
+        # last call of the frame handler within the current step.  Instance attribute, library untouched.
+        orig = getattr(h3, "_handle_request_or_push_frame", None)
+        if orig is not None:
+
+            def spy(frame_type, frame_data, stream, stream_ended):
+                last["v"] = (stream.stream_id, frame_type, frame_data is None, len(stream.buffer))
+                return orig(frame_type=frame_type, frame_data=frame_data, stream=stream, stream_ended=stream_ended)
+
+            h3._handle_request_or_push_frame = spy
     for ph, steps in zip(case.phases, schedule):
         pos = {}
         dgi = 0
@@ -634,8 +648,10 @@ def deliver(env: Env, case: Case, schedule, on_exc=None) -> Outcome:
                 p = pos.get(k, 0)
                 ev = SDR(stream_id=k, data=bytes(ph.data[k][p : p + n]), end_stream=f)
                 pos[k] = p + n
+                delivered[k] = delivered.get(k, 0) + n
                 if f and n == 0:
                     out.fin_alone_sids.add(k)
+            last.pop("v", None)
             try:
                 evs = h3.handle_event(ev)
             except Exception as exc:  # outcome class, not (by itself) a C14 violation
@@ -647,6 +663,7 @@ def deliver(env: Env, case: Case, schedule, on_exc=None) -> Outcome:
                 absorb(out, e)
             if stub.closed is not None and out.closed_by is None:
                 out.closed_by = (k, sorted(blocked))
+                out.probe = last["v"] + (delivered.get(last["v"][0], 0),) if "v" in last else None
             nb = blocked_now(h3)
             if nb or blocked:
                 out.resumes += len(blocked - nb)
@@ -654,6 +671,8 @@ def deliver(env: Env, case: Case, schedule, on_exc=None) -> Outcome:
                 blocked = nb
         if out.raised:
             break
+        if partial:
+            continue
         # harness self-check: the schedule must consume the phase exactly
         for k in ph.data:
             if pos.get(k, 0) != len(ph.data[k]):
@@ -681,7 +700,38 @@ def _first_item_diff(a, b):
     return None
 
 
-def classify(case: Case, ref: Outcome, var: Outcome):
+def frame_ending_at(data: bytes, start: int, end: int):
+    """class of the frame of a message stream that ends at byte offset `end`"""
+    for f in parse_frames(data, start):
+        if f["complete"] and not f.get("wt") and f["ps"] is not None and f["end"] == end:
+            return tclass(f["t"])
+    return "?"
+
+
+def close_diag(case: Case, o: Outcome):
+    """name the step that called close(): needs an Outcome produced with probe=True"""
+    full = case.full_streams()
+    if o.closed_by is None:
+        return "?"
+    k, blocked = o.closed_by
+    if o.probe is not None:
+        sid, ftype, resumed, buffered, delivered = o.probe
+        d, f = full.get(sid, (b"", False))
+        lay = stream_layout(sid, d)
+        if resumed:
+            # the frame the stream was blocked on ends where the still-buffered bytes begin
+            return "resume-of-blocked-%s(handled-as-%s)" % (frame_ending_at(d, lay[1], delivered - buffered), tclass(ftype))
+        kind = "msg" if lay[0] == "push" else lay[0]
+        return "frame=%s@%s:fin=%s" % (tclass(ftype), kind, fin_class(lay, len(d)) if f else "none")
+    if k == "dg":
+        return "by=dg"
+    d, f = full.get(k, (b"", False))
+    lay = stream_layout(k, d)
+    kind = "msg" if lay[0] == "push" else lay[0]
+    return "by=%s:fin=%s" % (kind, fin_class(lay, len(d)) if f else "none")
+
+
+def classify(case: Case, ref: Outcome, var: Outcome, diag=None):
     """List of (signature, text) describing how `var` (some splitting/interleaving) differs from
     `ref` (whole streams, sender order) in a way the property forbids; [] when equivalent."""
     out = []
@@ -690,7 +740,7 @@ def classify(case: Case, ref: Outcome, var: Outcome):
     def ctx(sid):
         d, f = full.get(sid, (b"", False))
         lay = stream_layout(sid, d)
-        c = lay[0] + ":fin=" + (fin_class(lay, len(d)) if f else "none")
+        c = ("msg" if lay[0] == "push" else lay[0]) + ":fin=" + (fin_class(lay, len(d)) if f else "none")
         if sid in var.blocked_sids:
             c += ",blocked"
         return c
@@ -702,17 +752,14 @@ def classify(case: Case, ref: Outcome, var: Outcome):
         return out
     if ref.closed is not None:
         if var.closed is None:
-            out.append(("chunk:close-missing:0x%x:%s" % (ref.closed, _blame(ref, ctx)),
+            out.append(("chunk:close-missing:0x%x:%s" % (ref.closed, diag or _blame(ref, ctx)),
                         "reference delivery closes the connection with 0x%x, this delivery does not close" % ref.closed))
         elif var.closed != ref.closed:
-            if case.faults <= 1:
-                out.append(("chunk:close-code-differs:0x%x-vs-0x%x" % (ref.closed, var.closed),
-                            "close code 0x%x (reference) vs 0x%x" % (ref.closed, var.closed)))
-            else:
-                out.append(("obs", "close code differs in a multi-fault case"))
+            out.append(("chunk:close-code-differs:0x%x:%s" % (var.closed, diag or _blame(var, ctx)),
+                        "close code 0x%x (reference) vs 0x%x" % (ref.closed, var.closed)))
         return out
     if var.closed is not None:
-        out.append(("chunk:close-only-when-split:0x%x:%s" % (var.closed, _blame(var, ctx)),
+        out.append(("chunk:close-only-when-split:0x%x:%s" % (var.closed, diag or _blame(var, ctx)),
                     "reference delivery does not close; this delivery closes with 0x%x" % var.closed))
         return out
     for sid in sorted(set(ref.streams) | set(var.streams), key=str):
@@ -733,10 +780,9 @@ def classify(case: Case, ref: Outcome, var: Outcome):
                         "stream %s item %d: reference %s, got %s" % (sid, i, _short(x), _short(y))))
         elif a["ended"] != b["ended"]:
             w = "ended-lost" if b["ended"] < a["ended"] else ("ended-gained" if a["ended"] == 0 else "ended-twice")
-            if sid in var.fin_alone_sids:
-                w += ":fin-alone"
             out.append(("chunk:%s:%s" % (w, ctx(sid)),
-                        "stream %s: reference signals end of stream %d time(s), this delivery %d time(s)" % (sid, a["ended"], b["ended"])))
+                        "stream %s: reference signals end of stream %d time(s), this delivery %d time(s)%s"
+                        % (sid, a["ended"], b["ended"], " (FIN delivered alone)" if sid in var.fin_alone_sids else "")))
         elif a["after_end"] != b["after_end"]:
             out.append(("chunk:events-after-end:%s" % ctx(sid), "stream %s: events after the end flag" % sid))
     if ref.dgrams != var.dgrams:
